@@ -334,8 +334,14 @@ class _Gen:
             self.features.add("atomic")
             if x < 0.3:
                 out += pad + "@atomic out1[in0[%s] %% %d] += %s;\n" % (g, r.choice([1, 2, 3]), r.choice(["1", "in1[%s]" % g, "2"]))
-            elif x < 0.42:
+            elif x < 0.36:
                 out += pad + "@atomic out1[4] -= 1;\n"
+            elif x < 0.42:
+                # right-hand sides that are expressions, not atoms (the translators paste them into a call)
+                self.features.add("atomic-compound-rhs")
+                out += pad + r.choice(["@atomic out1[13] -= in0[%s] - in1[%s];\n" % (g, g),
+                                       "@atomic out1[14] -= in0[%s] > 3 ? 1 : 2;\n" % g,
+                                       "@atomic out1[13] += in0[%s] - in1[%s] * 2;\n" % (g, g)])
             elif x < 0.52:
                 out += pad + "@atomic ++out1[5];\n"
             elif x < 0.67:
